@@ -19,10 +19,11 @@ pub mod replay;
 #[cfg(verif_replay)]
 pub mod selftest;
 
+pub mod c02;
 pub mod c06;
 pub mod c07;
 
 /// name -> native replay entry of every harness
 pub fn table() -> impl Iterator<Item = &'static (&'static str, fn())> {
-    c06::TABLE.iter().chain(c07::TABLE.iter())
+    c02::TABLE.iter().chain(c06::TABLE.iter()).chain(c07::TABLE.iter())
 }
